@@ -19,7 +19,7 @@ BLOCK = 40
 STREAM_ORDER = ['sched', 'preempt', 'faults', 'time', 'script', 'cfg']
 RULE = ('the real AsyncRunner and Interpreter run on real OS threads under a baton-passing scheduler: a runner thread and 1-3 client threads '
         'with drawn scripts over queue(uid), queue(uid, delay), pause, unpause, sleep, ending with stop() - in some runs a second client calls stop() as well - (or with an event that makes the '
-        'statechart final followed by wait()); runner knobs (interval in {0, 1/16, 1}, execute_all) drawn per run. The seeded scheduler decides '
+        'statechart final followed by wait(), after which in half of those runs another event is queued and a second runner is started on the final interpreter and must execute nothing); runner knobs (interval in {0, 1/16, 1}, execute_all) drawn per run. The seeded scheduler decides '
         'every context switch at fake threading/time primitives and - in the fine configuration - at LINE events inside Interpreter._queue_event '
         '/ _select_event / execute_once / _KeyifyList.__getitem__ and the AsyncRunner methods; it injects thread stalls, wall-clock jumps seen '
         'by time.time(), and sleep overshoot. History checks (events stamped with a global sequence number): executed steps (listener ground '
@@ -115,6 +115,7 @@ def run(ch, tier):
     execute_all = cs.flag(1, 2)
     nclients = cs.int(1, 3)
     ending = cs.weighted([('stop', 3), ('final-wait', 1)])
+    second_runner = ending == 'final-wait' and cs.flag(1, 2)
     maxops = 8 if tier == 'quick' else 12
     sched = Sched(ch, fine, density=density)
     sched.queue_codes = set(QUEUE_CODES)
@@ -150,6 +151,21 @@ def run(ch, tier):
 
         def after_execute(self, steps):
             sched.log('reported', tuple((ms.event.data.get('uid') if ms.event is not None else None) for ms in steps))
+
+    class R2(R):
+        """a second runner, started on the same interpreter once the first one has stopped by itself"""
+
+        def before_run(self):
+            sched.log('before_run2')
+
+        def after_run(self):
+            sched.log('after_run2')
+
+        def before_execute(self):
+            sched.log('cycle-begin2')
+
+        def after_execute(self, steps):
+            sched.log('reported2', len(steps))
 
     uid = [0]
     stop_invoked = [False]
@@ -239,6 +255,19 @@ def run(ch, tier):
                 sched.log('wait-inv')
                 r.wait()
                 sched.log('wait-ret')
+                if second_runner and it.final:
+                    # the statechart is final and the runner has stopped by itself: an event queued now stays where it is, and
+                    # another runner started on this interpreter has nothing to execute
+                    uid[0] += 1
+                    sched.log('queue-inv', uid[0], None, it.time)
+                    it.queue(Event('e', uid=uid[0]))
+                    sched.log('queue-ret', uid[0])
+                    r2 = R2(it, interval=interval, execute_all=execute_all)
+                    sched.log('start2-inv')
+                    r2.start()
+                    sched.log('start2-ret')
+                    r2.wait()
+                    sched.log('wait2-ret')
 
         c0 = sched.spawn(main_client, 'client0')
         c0.start_real()
@@ -259,6 +288,7 @@ def run(ch, tier):
     res.stats['decisions'] += sched.steps
     res.stats['fine_runs' if fine else 'coarse_runs'] += 1
     res.stats['runs_with_pending_delayed_internal_event'] += int(watchdog)
+    res.stats['runs_with_a_second_runner_started_on_the_final_statechart'] += int(any(e[2] == 'start2-inv' for e in sched.events))
     res.stats['runs_in_which_two_clients_call_stop'] += int(any(o[0] == 'stop' for sc2 in scripts for o in sc2))
     res.sim_time = sched.now - 1000.0
     H = sched.events
@@ -395,6 +425,16 @@ def check_history(H, mark, execute_all, ending):
             if late:
                 return ('cycle-while-paused', 'the runner was parked on its unpaused event (seq %d); a cycle began (seq %d) although no unpause() was '
                         'called in between (next unpause/start call: seq %s)' % (p, late[0][0], nxt if nxt <= mark else 'none'))
+    # ---- a second runner started on the final interpreter: its hooks run once, it executes nothing, it stops by itself
+    s2 = [e[0] for e in sim if e[2] == 'start2-inv']
+    if s2:
+        if not any(e[2] == 'wait2-ret' for e in sim):
+            return ('stop-did-not-return', 'a runner started on a final statechart did not stop by itself')
+        n2 = {k: len([e for e in sim if e[2] == k]) for k in ('before_run2', 'after_run2', 'cycle-begin2')}
+        ran = [c for c in calls if s2[0] < c['s'] <= mark]
+        if n2['before_run2'] != 1 or n2['after_run2'] != 1 or n2['cycle-begin2'] or ran:
+            return ('runs-on-final-statechart', 'a runner started on a statechart that is already final: before_run x%d, after_run x%d, '
+                    '%d cycles, %d calls of execute_once' % (n2['before_run2'], n2['after_run2'], n2['cycle-begin2'], len(ran)))
     # ---- stop / wait
     sr = [e[0] for e in sim if e[2] in ('stop-ret', 'wait-ret')]
     if not sr:
